@@ -76,7 +76,7 @@ def pty_peer(actions, raw=True, record=True, wait_ready=True, **kw):
             tok = READY if child.encoding else READY.encode('ascii')
             if not raw:
                 tok = tok.replace('\n' if child.encoding else b'\n', '\r\n' if child.encoding else b'\r\n')
-            child.expect_exact(tok, timeout=20)
+            child.expect_exact(tok, timeout=90)
     except Exception:
         ps.cleanup()
         raise
@@ -89,7 +89,7 @@ def popen_peer(actions, record=True, wait_ready=True, **kw):
     try:
         child = PopenSpawn(ps.argv, **kw)
         if wait_ready:
-            child.expect_exact(READY if child.encoding else READY.encode("ascii"), timeout=20)
+            child.expect_exact(READY if child.encoding else READY.encode("ascii"), timeout=90)
     except Exception:
         ps.cleanup()
         raise
